@@ -32,6 +32,9 @@ pub struct ModelState {
     /// files only while it processes a notification)
     pub seen_disk: BTreeMap<String, FileState>,
     pub root: Option<String>,
+    /// only for identifying the known finding about symbolic links: model a server that serves
+    /// the DISK text of the link's target even when the target is open in the editor
+    pub link_bypass: bool,
 }
 
 impl ModelState {
@@ -46,6 +49,35 @@ impl ModelState {
         }
         for (p, t) in &self.open {
             m.insert(PathBuf::from(p), t.clone());
+        }
+        // a symbolic link names the document it points to: the buffer if that one is open
+        // (what the property demands), its text on disk otherwise
+        for (p, s) in &self.seen_disk {
+            if let FileState::Link(_) = s {
+                let mut cur = s;
+                let mut target = p.clone();
+                let mut hops = 0;
+                while let FileState::Link(t) = cur {
+                    hops += 1;
+                    target = crate::model::norm_path(t);
+                    match self.seen_disk.get(&target) {
+                        Some(next) if hops <= 8 => cur = next,
+                        _ => break,
+                    }
+                }
+                let text = match self.open.get(&target) {
+                    Some(buffer) if !self.link_bypass => Some(buffer.clone()),
+                    _ => match self.seen_disk.get(&target) {
+                        Some(FileState::Text(t)) => Some(t.clone()),
+                        _ => None,
+                    },
+                };
+                if let Some(text) = text {
+                    if !self.open.contains_key(p) {
+                        m.insert(PathBuf::from(p), text);
+                    }
+                }
+            }
         }
         m
     }
@@ -139,6 +171,26 @@ pub fn model_of(scenario: &Scenario) -> Model {
         }
     }
     Model { states, racy, after_close, notifs_before_op, final_disk: disk }
+}
+
+impl Model {
+    /// The same session as seen by a server that reads through symbolic links to the disk.
+    pub fn with_link_bypass(&self) -> Model {
+        let mut m = Model {
+            states: self.states.clone(),
+            racy: self.racy.clone(),
+            after_close: self.after_close.clone(),
+            notifs_before_op: self.notifs_before_op.clone(),
+            final_disk: self.final_disk.clone(),
+        };
+        for s in m.states.iter_mut() {
+            s.link_bypass = true;
+        }
+        for s in m.after_close.values_mut() {
+            s.link_bypass = true;
+        }
+        m
+    }
 }
 
 fn responses(res: &ExecResult) -> BTreeMap<i64, Vec<&Value>> {
